@@ -238,7 +238,9 @@ def validate_random(ctx, gen_case, n, what='recorded call is not a step of the s
     meta = {}
     for i in range(n):
         cs, lay = gen_case(ctx.rng)
-        res = run_case(cs, lay, any_err=any_err)
+        # every fourth case runs on the grow-only class (half of those grown to their shape, see project.build_frame): the class of the
+        # container and the way it reached its shape are not observable through any single-call operation
+        res = run_case(cs, lay, any_err=any_err, cls=sf.FrameGO if (i % 4 == 3 and 'f' in cs and not cs['f'].get('columns_auto')) else None)
         events.append({'id': i, 'cs': cs, 'res': res})
         meta[i] = lay
         ctx.count('V_' + cs['op'])
